@@ -13,6 +13,7 @@ CONSTANTS
  MaxFailBursts = 0
  MaxSteps = 150
  Fine = FALSE
+ FineCtls = {"tx", "prop", "cfg", "mast", "conn"}
  FineClients = TRUE
  AllPaths <- PU_All
  GoParent <- PU_GoParent
